@@ -57,7 +57,7 @@ for _pid, _l in {"C01": [("scale-msgs", 5), ("reuse-after-prune", 32)], "C02": [
                  "C03": [("stale-ns", 32), ("np-cross", 48)],
                  "C04": [("scale-name", 3)], "C05": [("scale-time", 5), ("late-sweep", 48), ("sweep", 120), ("crowd-retry", 64), ("reuse-after-prune", 32)], "C06": [("scale-apps", 3)],
                  "C07": [("scale-time", 5), ("np-cross", 48)], "C08": [("reuse-after-prune", 32)], "C11": [("scale-apps", 3), ("stale-ns", 24), ("reuse-after-prune", 32)], "C12": [("scale-subs", 4), ("scale-time", 5), ("late-sweep", 48), ("stale-ns", 24), ("dst", 6)],
-                 "C13": [("scale-msgs", 5), ("kf-q", 120), ("two-app", 80), ("dst", 6)], "C15": [("scale-time", 5)], "C17": [("scale-name", 3)]}.items():
+                 "C13": [("scale-msgs", 5), ("kf-q", 120), ("two-app", 80), ("dst", 6)], "C15": [("scale-time", 5)], "C17": [("scale-name", 3), ("scale-subs", 2)]}.items():
     PROPS[_pid]["streams"] = PROPS[_pid]["streams"] + _l
 for _pid in ("C01", "C02", "C03", "C07", "C08", "C09", "C14"):
     PROPS[_pid]["streams"] = PROPS[_pid]["streams"] + [("pipeline", 32)]
@@ -72,7 +72,7 @@ for _pid in MM.CHECKS:
 
 # the lock stream (faults.py): real database-lock faults; monitor-only
 import faults as _FL
-for _pid in ("C02", "C03", "C07", "C08", "C09", "C13", "C14", "C16"):
+for _pid in ("C02", "C03", "C07", "C08", "C09", "C13", "C14", "C15", "C16"):
     PROPS[_pid]["extra"] = _FL.chain(PROPS[_pid]["extra"], _FL.extra(_pid)) if PROPS[_pid].get("extra") else _FL.extra(_pid)
 
 # harness validity (validity.py): real kills vs simulated crashes (C10), real loopback WebSockets vs direct calls (C17 C02)
